@@ -57,9 +57,28 @@ def locksetVerdict (name : String) : String :=
   | "stageState" => pairs (offendersClosures stageState)
   | "stageStateFuncfile" => pairs (offendersClosures stageStateFuncfile)
   | "stdlibGlobals" => pairs (offenders stdlibGlobalsCtors stdlibGlobals)
+  | "stageStateExpressions" => pairs (offendersClosures stageStateExpressions)
+  | "stageStateStdmath" => pairs (offendersClosures stageStateStdmath)
+  | "compiledKeyBuilder" => pairs (offenders compiledKeyBuilderCtors compiledKeyBuilder)
+  | "expressionsGlobals" => pairs (offenders expressionsGlobalsCtors expressionsGlobals)
+  | "stdmathGlobals" => pairs (offenders stdmathGlobalsCtors stdmathGlobals)
   | "aggregation" => mon (monitorOffenders aggregation)
   | "multiterm" => mon (monitorOffenders multiterm)
   | "termrenderers" => mon (monitorOffenders termrenderers)
+  | _ => "bad-args table"
+
+open Rare.Gen.Access Rare.Lockset in
+/-- `stageclass <table>`: the captured variables of a closure table that are plainly written at evaluation time
+    (`ok mutable=.` is the property's claim), with the pooled and atomic ones for the record. -/
+def stageClassVerdict (name : String) : String :=
+  let go (fields : List Fld) (accs : List Acc) : String :=
+    let l (c : String) := match ofClass fields accs c with | [] => "." | xs => ",".intercalate xs
+    s!"ok mutable={l "mutable"}"
+  match name with
+  | "stageState" => go stageStateFields stageState
+  | "stageStateFuncfile" => go stageStateFuncfileFields stageStateFuncfile
+  | "stageStateExpressions" => go stageStateExpressionsFields stageStateExpressions
+  | "stageStateStdmath" => go stageStateStdmathFields stageStateStdmath
   | _ => "bad-args table"
 
 /-- `status <setup> <body> <reps> <readers>`: the sequential meaning of a script of status updates (the
@@ -84,7 +103,8 @@ def statusAnswer (setup body : String) (reps : Nat) : String :=
     the matched total, and the two flags the harness reports (`1` = the property held in that run).
     `atrace <blob>`: trace inclusion of a real run's event log (blob as in C01's `ptrace`).
     `lockset <table>`: the static lockset verdict on the table regenerated from /repo.
-    `status …`: status bookkeeping of the Batcher.  `pool …`: exclusive ownership of pooled objects. -/
+    `status …`: status bookkeeping of the Batcher.  `pool …`: exclusive ownership of pooled objects.
+    `stages …`: every value a worker computes with the shared compiled expression is the sequential value. -/
 def handle : List String → String
   | "agg" :: ins :: _ =>
     match decHexList ins with
@@ -105,8 +125,10 @@ def handle : List String → String
         | _, _ => "bad-args cfg/trace"
     | _ => "bad-args blob"
   | "lockset" :: name :: _ => locksetVerdict name
+  | "stageclass" :: name :: _ => stageClassVerdict name
   | "status" :: setup :: body :: reps :: _ => statusAnswer setup body reps.toNat!
   | "pool" :: _ => "ok bad=0"
+  | "stages" :: _ => "ok bad=0 panics=0"
   | _ => "bad-op"
 
 end Rare.Drv.C05
